@@ -14,6 +14,7 @@ import re
 
 import vlib
 import progs
+import specdiff
 
 THEOREM_MODULES = []
 REQUIRED_THEOREMS = []
@@ -152,7 +153,14 @@ def correspondence(ctx, model_ok=True):
                                      "signature": "accepted-but-unverifiable " + cls, "failing_input": True})
         except Exception as e:
             broken.append("model driver verify: %s" % e)
+    sd = {"failures": [], "scan_compared": 0, "compile_compared": 0}
+    if model_ok:
+        sample = [c for c in cases if not c[0].startswith("prefix:")] + [c for i, c in enumerate(cases) if c[0].startswith("prefix:") and i % (1 if ctx.thorough else 7) == 0]
+        sample = [c for c in sample if len(c[1]) < 20000]
+        sd = specdiff.compile_and_scan_diff(ctx, sample, broken)
+        failures += sd["failures"]
     cov = {
+        "token_streams_compared_with_reference_scanner": sd["scan_compared"], "compile_results_compared_with_reference_parser": sd["compile_compared"],
         "evaluations": len(cases),
         "distinct_nontrivial": len(distinct),
         "rule": "prefixes of repository scripts (stride %d), 1-3 character/token-level mutations of scripts, random sequences over a %d-item token vocabulary, "
@@ -173,6 +181,9 @@ def dedupe(failures):
 
 
 def replay(ctx, payload):
+    if payload.get("kind") in ("scan", "compile") and "program" in payload:
+        out = specdiff.compile_and_scan_diff(ctx, [("replay", payload["program"])], [])
+        return not out["failures"], json.dumps(out["failures"][:1])[:1500]
     if "program" not in payload:
         return False, "nothing to replay"
     r = vlib.run_real(ctx.runner, [vlib.case_line("r", ["C:" + vlib.hx(payload["program"])])])[0]
